@@ -155,7 +155,7 @@ let enumerate vs cs =
   end
 
 (* ---- instance reading *)
-type opk = OS | OF | OA of con | OD of int * q | OW of int * q
+type opk = OS | OF | OA of con | OD of int * q | OW of int * q | OR of int list | OP of int
 type real = { r_op : int; r_status : string; r_x : q array; r_act : bool array; r_uns : bool array }
 type inst = { id : int; vs : var array; cs : con array; ops : opk array; reals : real list; queries : int list }
 
@@ -180,6 +180,8 @@ let read_instances ic : inst list =
           ops := OA { cl = nat_of_int (int_of_string l); cr = nat_of_int (int_of_string r); gap = q_of_string g; ceq = (e = "1") } :: !ops
       | ["o"; "D"; i; d] -> ops := OD (int_of_string i, q_of_string d) :: !ops
       | ["o"; "W"; i; w] -> ops := OW (int_of_string i, q_of_string w) :: !ops
+      | "o" :: "R" :: _ :: ids -> ops := OR (List.map int_of_string ids) :: !ops
+      | ["o"; "P"; j] -> ops := OP (int_of_string j) :: !ops
       | ["q"; k] -> queries := int_of_string k :: !queries     (* feasibility query: the real solver threw at op k *)
       | "r" :: k :: status :: rest ->
           let n = List.length !vs in
@@ -220,18 +222,30 @@ let () =
     let weights_changed = ref false in
     let cs_at = Hashtbl.create 8 and vs_at = Hashtbl.create 8 and mact_at = Hashtbl.create 8 in
     let cur_cs = ref (Array.to_list inst.cs) and cur_vs = ref (Array.copy inst.vs) in
+    (* object reuse (ops R / P): objs = every constraint object in creation order; the model has no object identity:
+       R starts a FRESH model state over the current variables and the listed constraints, P is an addConstraint *)
+    let objs = ref (Array.to_list inst.cs) in
     Array.iteri (fun k o ->
       (match o with
-       | OA c -> cur_cs := !cur_cs @ [c]
+       | OA c -> cur_cs := !cur_cs @ [c]; objs := !objs @ [c]
+       | OP j -> cur_cs := !cur_cs @ [List.nth !objs j]
+       | OR ids -> cur_cs := List.map (fun j -> List.nth !objs j) ids
        | OD (i, d) -> let v = !cur_vs.(i) in let a = Array.copy !cur_vs in a.(i) <- { v with des = d }; cur_vs := a
        | OW (i, w) -> let v = !cur_vs.(i) in let a = Array.copy !cur_vs in a.(i) <- { v with wt = w }; cur_vs := a
        | _ -> ());
       (match o with
        | OS | OF -> Hashtbl.replace cs_at k (Array.of_list !cur_cs); Hashtbl.replace vs_at k !cur_vs
        | _ -> ());
-      if !alive then begin
+      (match o with
+       | OR _ when !alive ->
+           s := init (Array.to_list !cur_vs) !cur_cs;
+           weights_changed := false;
+           Printf.printf "i %d %d 1 %d\n" k (if all_invb !s then 1 else 0) (if all_invb !s then 0 else int_of_nat (inv_mask !s))
+       | _ -> ());
+      if !alive && (match o with OR _ -> false | _ -> true) then begin
         let op = match o with OS -> Base Solve | OF -> Base Satisfy | OA c -> Base (AddConstraint c)
-                              | OD (i, d) -> Base (SetDesired (nat_of_int i, d)) | OW (i, w) -> SetWeight (nat_of_int i, w) in
+                              | OD (i, d) -> Base (SetDesired (nat_of_int i, d)) | OW (i, w) -> SetWeight (nat_of_int i, w)
+                              | OP j -> Base (AddConstraint (List.nth !objs j)) | OR _ -> Base Satisfy (* not reached *) in
         (match o with OW _ -> weights_changed := true | _ -> ());
         (* the model run, with the proved invariants (VpscInvB.all_invb: book, act_inv, forest, trichotomy, block
            statistics) evaluated on EVERY state visited while executing this op; line "i k ok nstates mask".
